@@ -49,7 +49,7 @@ type act struct {
 	C    int    `json:"c"`
 	T    int    `json:"t"`
 	K    int    `json:"k"`
-	Fits bool   `json:"fits"`
+	Mode string `json:"mode"`
 }
 
 // shadow is what the driver knows a live frame must look like.
@@ -329,7 +329,8 @@ func (w *world) exec(a act) {
 			capacity := w.capOf(sh)
 			room := capacity - sh.psOff - (len(d) - len(sh.apx))
 			var n int
-			if a.Fits {
+			switch a.Mode {
+			case "fits":
 				n = room
 				if n > 10000 {
 					n = 10000
@@ -340,11 +341,19 @@ func (w *world) exec(a act) {
 				if n < 1 {
 					n = 0
 				}
-			} else {
+			case "grow":
 				n = room + 1 + w.rng.Intn(50)
-				if n > 10000 || room >= 10000 {
-					n = 10001 + w.rng.Intn(100)
+				if w.rng.Intn(3) == 0 {
+					n = 10000 // the protocol limit
 				}
+				if n > 10000 {
+					n = 10000
+				}
+				if n < 1 {
+					n = 1
+				}
+			default:
+				n = 10001 + w.rng.Intn(100)
 			}
 			napx := w.randBytes(n)
 			if err := sh.f.SetAppendixData(napx); err != nil {
@@ -404,7 +413,7 @@ func runSeq(c *vf.Ctx, b *batch, ops []act, nslots int, tmap []int, margin [2]in
 func sig(ops []act) string {
 	s := ""
 	for _, a := range ops {
-		s += fmt.Sprintf("%s(%d,%d,%d,%v);", a.Name, a.S, a.C+a.K, a.T, a.Fits)
+		s += fmt.Sprintf("%s(%d,%d,%d,%s);", a.Name, a.S, a.C+a.K, a.T, a.Mode)
 	}
 	return s
 }
